@@ -48,6 +48,7 @@ type LoopContract struct {
 	Ord        int
 	Invariants []*Clause
 	Decreases  *Clause
+	Exits      []*Clause // must hold whenever the loop is left through its condition (normal exit)
 	Cases      *Clause // case split on a local variable's value at the loop head: cases <local> <lo> <hi>
 	CaseLo     int
 	CaseHi     int
@@ -88,7 +89,7 @@ func hasTag(tags []string, p string) bool {
 	return false
 }
 
-var clauseHead = regexp.MustCompile(`^(func|requires|ensures|invariant|decreases|cases|loop|safety|modifies|recv|nocap|inline|trusted|lemma|fresh|allocates|unroll|rec|mathint)(\[[A-Za-z0-9,* ]*\])?(\s+|$)`)
+var clauseHead = regexp.MustCompile(`^(func|requires|ensures|invariant|decreases|cases|exit|loop|safety|modifies|recv|nocap|inline|trusted|lemma|fresh|allocates|unroll|rec|mathint)(\[[A-Za-z0-9,* ]*\])?(\s+|$)`)
 
 // parseContractFile extracts the //@ blocks of one file.
 func parseContractComments(fset *token.FileSet, f *ast.File) ([]*Contract, error) {
@@ -136,7 +137,7 @@ func parseContractComments(fset *token.FileSet, f *ast.File) ([]*Contract, error
 				}
 				curLoop = n
 				last = nil
-			case "invariant", "decreases", "cases":
+			case "invariant", "decreases", "cases", "exit":
 				if curLoop == 0 {
 					return nil, fmt.Errorf("line %d: %s outside a loop", line, kw)
 				}
@@ -565,6 +566,12 @@ func (e *Engine) bindContract(ct *Contract) error {
 					cl.Label = fmt.Sprintf("inv%d", ni)
 				}
 				lc.Invariants = append(lc.Invariants, cl)
+			} else if rc.kind == "exit" {
+				cl, err := e.parseClause(ct, rc, lc.pos, false, len(lc.Exits)+1)
+				if err != nil {
+					return err
+				}
+				lc.Exits = append(lc.Exits, cl)
 			} else if rc.kind == "cases" {
 				f := strings.Fields(rc.text)
 				if len(f) != 3 {
